@@ -17,7 +17,7 @@ from vt import sym
 from vt.props._recv import InlineExecutor, Lab, ackable, encode, make_broker
 
 KINDS = ("valid", "malformed", "unknown", "malformed_raw", "empty", "empty_raw", "late_task")
-OUTCOMES = ("return", "raise", "backend_fail", "hook_raise", "never", "timeout", "timeout_cleanup")
+OUTCOMES = ("return", "raise", "backend_fail", "hook_raise", "never", "timeout", "timeout_cleanup", "backend_cancelled")
 
 
 class Run:
@@ -54,7 +54,19 @@ def run(c: sym.Ctx, spec: Dict[str, Any], on_step: Any = None) -> Run:
     N = c.int("N", 1) if spec["N"] == "sym" else (None if spec["N"] == "none" else spec["N"])
     r.A, r.P, r.N, r.wtt = A, P, N, spec.get("wtt")
     failing_ids = {f"id{i}" for i in range(M) if r.outcomes[i] == "backend_fail"}
+    cancelled_ids = {f"id{i}" for i in range(M) if r.outcomes[i] == "backend_cancelled"}
     broker = make_broker(lab, backend_fail=lambda tid: tid in failing_ids)
+    if cancelled_ids:
+        real_set = broker.result_backend.set_result
+
+        async def set_result(task_id: str, result: Any) -> None:
+            if task_id in cancelled_ids:
+                # the backend's connection future was cancelled: a CancelledError (not an Exception) comes out of the save
+                lab.rec("set_result", "cancelled", task_id)
+                raise asyncio.CancelledError()
+            await real_set(task_id, result)
+
+        broker.result_backend.set_result = set_result  # type: ignore[method-assign]
 
     class HookMw(TaskiqMiddleware):
         def pre_execute(self, message: Any) -> Any:
@@ -101,7 +113,8 @@ def run(c: sym.Ctx, spec: Dict[str, Any], on_step: Any = None) -> Run:
         else:
             labels = {"hook_raise": True} if r.outcomes[i] == "hook_raise" else ({"timeout": 5} if r.outcomes[i] in ("timeout", "timeout_cleanup") else {})
             name = {"valid": "t", "late_task": "late"}.get(r.kinds[i], "nope")
-            data = encode(broker, name, f"id{i}", [i], labels)
+            # only some labels carry type information (the others were added by a pre_send hook / foreign producer)
+            data = encode(broker, name, f"id{i}", [i], {**labels, "tag": "x"}, labels_types={"tag": 3})
         msgs.append(ackable(lab, i, data, spec.get("ack_mode", False)) if spec.get("ackable", True) else data)
     broker.script = msgs
     recv = Receiver(
